@@ -42,7 +42,7 @@ static int is_dup(char const *line)
 }
 static void put_m(FILE *f, char const *name, a_real const *v, int n)
 {
-    double d[32];
+    double d[160];
     for (int i = 0; i < n; ++i) { d[i] = (double)v[i]; }
     fprintf(f, ",\"%s\":", name);
     put_dyadics(f, d, n);
@@ -50,16 +50,19 @@ static void put_m(FILE *f, char const *name, a_real const *v, int n)
 
 /* the same matrix scaled by 2^s (exact): the factorization must still succeed and the log-determinant must move by
    exactly n*s*ln 2, also where the determinant itself is far outside the floating-point range */
-static void put_scaled(FILE *f, int kind, int n, a_real const *A)
+static void put_scaled(FILE *f, int kind, int n, a_real const *A, a_real const *b)
 {
     /* beyond the range of the next narrower type as well: 2^60 (float), 2^400 (double), 2^4000 (long double) */
     int const S = sizeof(a_real) == 4 ? 60 : sizeof(a_real) == 8 ? 400 : 4000;
-    int const sh[] = {S, -S};
-    a_real B[25];
-    a_uint p[5];
+    /* ... and down into the subnormal range (entries stay exact: they are small multiples of 1/4) */
+    /* the smallest normal exponent: pivots of magnitude >= 2 stay normal, entries below become subnormal */
+    int const SUB = sizeof(a_real) == 4 ? -127 : sizeof(a_real) == 8 ? -1023 : -16383;
+    int const sh[] = {S, -S, SUB};
+    a_real B[160];
+    a_uint p[16];
     int sign;
     fputs(",\"scaled\":[", f);
-    for (int k = 0; k < 2; ++k)
+    for (int k = 0; k < 3; ++k)
     {
         int rc;
         long double ln = 0;
@@ -69,6 +72,24 @@ static void put_scaled(FILE *f, int kind, int n, a_real const *A)
         else { rc = a_real_llt((a_uint)n, B); if (rc == 0) { ln = a_real_llt_lndet((a_uint)n, B); } }
         fprintf(f, "%s{\"rc\":%d,\"l2\":", k ? "," : "", rc);
         put_value(f, (double)(ln / 0.69314718055994530942L - (long double)n * sh[k]));
+        /* the solution of the scaled system with the scaled right-hand side is the same vector */
+        fputs(",\"x\":", f);
+        if (rc == 0)
+        {
+            a_real bs[16], xs[16];
+            double dx[16];
+            for (int i = 0; i < n; ++i) { bs[i] = (a_real)ldexpl((long double)b[i], sh[k]); }
+            if (kind <= 2) { a_real_plu_solve((a_uint)n, B, p, bs, xs); }
+            else
+            {
+                memcpy(xs, bs, sizeof(a_real) * (size_t)n);
+                if (kind <= 4) { a_real_ldl_solve((a_uint)n, B, xs); }
+                else { a_real_llt_solve((a_uint)n, B, xs); }
+            }
+            for (int i = 0; i < n; ++i) { dx[i] = (double)xs[i]; }
+            put_dyadics(f, dx, n);
+        }
+        else { fputs("[]", f); }
         fputc('}', f);
     }
     fputc(']', f);
@@ -90,29 +111,38 @@ int main(int argc, char **argv)
     }
     long const stride = argc > 4 ? atol(argv[4]) : 1; /* take every stride-th case (used for the additional real widths) */
     long n_seen = 0;
-    static char line[1 << 14];
-    long v[256];
+    static char line[1 << 16];
+    long v[700];
     long by_kind[8] = {0};
     while (fgets(line, sizeof(line), fi))
     {
         if (!strstr(line, "2020202")) { continue; }
         if (is_dup(line)) { ++n_dups; continue; }
         if (stride > 1 && (n_seen++ % stride)) { continue; }
-        int cnt = parse_ints(line, v, 256);
+        int cnt = parse_ints(line, v, 700);
         int kind = (int)v[1], n = (int)v[2], aux = (int)v[3], nn = n * n;
-        if (cnt != 4 + 2 * nn || n > 5) { fprintf(stderr, "bad line\n"); return 3; }
-        a_real A[25], W[25], L[25], U[25], P[25], P2[25], I1[25], I2[25], b[5], x[5], tmp[5], d[5];
+        if (cnt != 4 + 2 * nn || n > 12) { fprintf(stderr, "bad line\n"); return 3; }
+        a_real A[160], W[160], L[160], U[160], P[160], P2[160], I1[160], I2[160], b[16], x[16], tmp[16], d[16];
         for (int i = 0; i < nn; ++i) { A[i] = (a_real)v[4 + 2 * i] / (a_real)v[5 + 2 * i]; }
         for (int i = 0; i < n; ++i) { b[i] = (a_real)(i % 2 ? -2 * (i + 1) : (i + 1)); }
+        if (n > 5)
+        {
+            /* larger orders: a right-hand side with a small integer solution, so that the solution stays exactly representable */
+            for (int i = 0; i < n; ++i)
+            {
+                b[i] = 0;
+                for (int j = 0; j < n; ++j) { b[i] += A[i * n + j] * (a_real)((j % 3) - 1 + (j == 0)); }
+            }
+        }
         memcpy(W, A, sizeof(a_real) * (size_t)nn);
         by_kind[kind]++;
         FILE *f = out();
         fprintf(f, "{\"kind\":%d,\"n\":%d,\"aux\":%d,\"A\":", kind, n, aux);
-        { double dA[25]; for (int i = 0; i < nn; ++i) { dA[i] = (double)A[i]; } put_dyadics(f, dA, nn); }
+        { double dA[160]; for (int i = 0; i < nn; ++i) { dA[i] = (double)A[i]; } put_dyadics(f, dA, nn); }
         put_m(f, "b", b, n);
         if (kind <= 2)
         {
-            a_uint p[5];
+            a_uint p[16];
             int sign = 7;
             int rc = a_real_plu((a_uint)n, W, p, &sign);
             fprintf(f, ",\"rc\":%d", rc);
@@ -142,7 +172,7 @@ int main(int argc, char **argv)
                 fprintf(f, ",\"sgndet\":%d,\"lndet2\":", a_real_plu_sgndet((a_uint)n, W, sign));
                 put_dyadic(f, a_real_plu_lndet((a_uint)n, W) / 0.69314718055994530942);
                 fputs(",\"lnd\":", f); put_value(f, a_real_plu_lndet((a_uint)n, W) / 0.69314718055994530942);
-                put_scaled(f, kind, n, A);
+                put_scaled(f, kind, n, A, b);
             }
         }
         else if (kind <= 4)
@@ -167,7 +197,7 @@ int main(int argc, char **argv)
                 fprintf(f, ",\"sgndet\":%d,\"lndet2\":", a_real_ldl_sgndet((a_uint)n, W));
                 put_dyadic(f, a_real_ldl_lndet((a_uint)n, W) / 0.69314718055994530942);
                 fputs(",\"lnd\":", f); put_value(f, a_real_ldl_lndet((a_uint)n, W) / 0.69314718055994530942);
-                put_scaled(f, kind, n, A);
+                put_scaled(f, kind, n, A, b);
             }
         }
         else
@@ -190,7 +220,7 @@ int main(int argc, char **argv)
                 fputs(",\"lndet2\":", f);
                 put_dyadic(f, a_real_llt_lndet((a_uint)n, W) / 0.69314718055994530942);
                 fputs(",\"lnd\":", f); put_value(f, a_real_llt_lndet((a_uint)n, W) / 0.69314718055994530942);
-                put_scaled(f, kind, n, A);
+                put_scaled(f, kind, n, A, b);
             }
         }
         fputs("}\n", f);
